@@ -208,7 +208,39 @@ def r4_witness(cx):
 
 r4_witness.only_configs = ("lib-all3",)
 
+def r5_buffered_writes_are_flushed(cx):
+    """an I/O error on any byte of an output must make creation fail (and so never be published): a BufWriter built over
+    an output in the creator is never left to flush in its destructor (which discards the error) -- on every
+    successful path from its construction it is flush()ed / into_inner()ed, and for one stored in a struct the owning
+    type does it in the method that gives the file back"""
+    F = cx.F
+    n = 0
+    for f in F.live_fns:
+        if "blocks" not in f or not re.search(r"^creator::|creator::", f["name"]) or f.get("kind") == "closure":
+            continue
+        b = F.body(f)
+        for i, t in b.calls(r"std::io::BufWriter::<.*>::(new|with_capacity)$"):
+            n += 1
+            dest = t["dest"]["l"]
+            # moved into an aggregate (struct field): the owner must release it explicitly
+            stored = any(st["k"] == "assign" and st["rv"]["k"] == "agg" and st["rv"].get("ak") == "adt" and any(op_local(fo) == dest for fo in st["rv"]["fields"])
+                         for blk in b.blocks for st in blk["s"])
+            short = ((f.get("impl_self") or "").split("<")[0].split("::")[-1] + "." + f["item_name"]) if f.get("impl_self") and f.get("item_name") else ".".join(f["name"].split("::")[-2:])
+            if stored:
+                owner = f.get("impl_self") or ""
+                rel = [g["name"] for g in F.live_fns if "blocks" in g and g.get("impl_self") == owner and F.body(g).calls(r"BufWriter::<.*>::into_inner$|BufWriter<.*> as std::io::Write>::flush$")]
+                cx.ob("R5", "R5/%s/stored-writer-released" % short, bool(rel), f, "the BufWriter stored by %s is released with into_inner()/flush() by %s" % (short, rel or "nobody"), ln=t.get("ln"))
+                continue
+            rel = {j for j, tt in b.calls(r"BufWriter::<.*>::into_inner$|BufWriter::<.*>::into_parts$|BufWriter<.*> as std::io::Write>::flush$") if dest in {x[1] for x in b.origins(tt["args"][0]) if x[0] == "local"} | {op_base_local(tt["args"][0])} or ("call", i) in b.origins(tt["args"][0])}
+            ok = bool(rel) and b.must_pass_before_return(rel, start=i)
+            cx.ob("R5", "R5/%s/flushed-before-drop" % short, ok, f,
+                  "every successful path from BufWriter::new reaches flush()/into_inner() (an error in the implicit flush of Drop is discarded)", ln=t.get("ln"))
+    if n < 3:
+        raise AnchorLost("creator BufWriter sites: %d" % n)
+
+
 RULES = [
+    ("R5", r5_buffered_writes_are_flushed, 3),
     ("R1", r1_who_may, 6),
     ("R2", r2_temp_dir, 2),
     ("R3", r3_entry_point_last, 12),
